@@ -88,6 +88,9 @@ BASE = [
     {'dim': 2, 'expr': 'Dx(u, 0, parametric=True)*Dx(v, 0, parametric=True)*dx'},
     {'dim': 2, 'spacetime': True, 'expr': '(inner(grad(u), grad(v)) + u.dt()*v)*dx'},
     {'dim': 3, 'spacetime': True, 'expr': '(u.dt(2)*v.dt() + inner(grad(u), grad(v).dt()))*dx'},
+    # mixed space/time derivatives with time order >= 2 (the rewriting of physical derivatives must keep the time order)
+    {'dim': 2, 'spacetime': True, 'expr': 'inner(grad(u).dt(2), grad(v).dt())*dx'},
+    {'dim': 3, 'spacetime': True, 'expr': '(inner(grad(u.dt(2)), grad(v)) + u.dt(3)*v)*dx'},
     {'dim': 2, 'expr': 'inner(outer(b, b), hess(u))*v*dx', 'inputs': [['b', [2], False, False]]},
     {'dim': 2, 'expr': 'f**2*u*v*dx', 'inputs': [['f', [], False, False]]},
     {'dim': 2, 'expr': 'tan(f)*log(2.0+g*g)*u*v*dx', 'inputs': [['f', [], False, False], ['g', [], True, False]]},
